@@ -45,6 +45,30 @@ Theorem C11_refs : forall f j ns wh st d p st',
 Proof. intros f j ns wh st d p st' H. destruct (parse_rec_refs f _ _ _ _ _ _ _ H). auto. Qed.
 Print Assumptions C11_refs.
 
+(** ... and denotes the definition with that full name: its table entry is a dict whose "name"
+    is the reference (given that the entries of the initial table carry their names, e.g. []) *)
+Theorem C11_refs_denote : forall f j ns wh st d p st',
+  parse_rec f j ns wh st d = POk (p, st') -> entries_ok [] (st_tbl st) ->
+  forall r, In r (refs p) -> exists kv, jget r (st_tbl st') = Some (JObj kv) /\ jget "name" kv = Some (JStr r).
+Proof. exact refs_denote. Qed.
+Print Assumptions C11_refs_denote.
+
+(** the invariant behind it, with the records whose fields are being parsed as [open] *)
+Theorem C11_table_entries : forall f j ns wh st d p st' open,
+  parse_rec f j ns wh st d = POk (p, st') -> entries_ok open (st_tbl st) -> entries_ok open (st_tbl st').
+Proof. exact parse_rec_entries. Qed.
+Print Assumptions C11_table_entries.
+
+(** the keys of a named node of the output: "name" is the full name; "namespace" is dropped, except
+    that a null-namespace type met inside a non-null namespace keeps "namespace": "" (so that
+    parsing the output again, unmarked, gives the same names) *)
+Theorem C11_output_namespace : forall f kv t ns wh st d pkv st',
+  parse_rec f (JObj kv) ns wh st d = POk (JObj pkv, st') ->
+  jget "type" kv = Some (JStr t) -> named_type t ->
+  jget "namespace" pkv = kept_namespace ns (spec_fullname ns kv) /\ jget "name" pkv = Some (JStr (spec_fullname ns kv)).
+Proof. exact output_namespace. Qed.
+Print Assumptions C11_output_namespace.
+
 (** ---- rejection at any depth ---- *)
 
 (** acceptance of a schema implies acceptance (in some state) of every subschema the parser
@@ -82,17 +106,18 @@ Theorem C11_rejects_duplicate_name_any_depth : forall f j ns wh st d p st',
 Proof. exact accepted_names_unique. Qed.
 Print Assumptions C11_rejects_duplicate_name_any_depth.
 
-(** ... which is FALSE of parse_schema on a top-level union: every member is parsed with a
-    fresh redefinition set (defect F5) *)
-Theorem C11_refuted_toplevel_union_dup :
-  exists j, valid_raw j = false /\ (exists r, parse_auto j = POk r) /\
-            spec_names "" j = ["A"; "A"].
-Proof.
-  exists (JArr [JObj [("type", JStr "record"); ("name", JStr "A"); ("fields", JArr [])];
-                JObj [("type", JStr "record"); ("name", JStr "A"); ("fields", JArr [])]]).
-  split; [vm_compute; reflexivity|]. split; [eexists; vm_compute; reflexivity|vm_compute; reflexivity].
-Qed.
-Print Assumptions C11_refuted_toplevel_union_dup.
+(** ... and the same through parse_schema, where the members of a top-level union share the name
+    set (since the repair of defect F5; for the code before it, two top-level members named "A"
+    were accepted: each member was parsed with a fresh set) *)
+Theorem C11_rejects_duplicate_name_toplevel : forall f j t p t',
+  unmarked j = true -> parse_schema f j t = POk (p, t') -> NoDup (spec_names "" j).
+Proof. exact parse_schema_names_unique. Qed.
+Print Assumptions C11_rejects_duplicate_name_toplevel.
+
+Example C11_toplevel_union_dup_rejected :
+  parse_auto (JArr [JObj [("type", JStr "record"); ("name", JStr "A"); ("fields", JArr [])];
+                    JObj [("type", JStr "fixed"); ("name", JStr "A"); ("size", JInt 1)]]) = PErrParse.
+Proof. vm_compute. reflexivity. Qed.
 
 (** named type without a name *)
 Theorem C11_rejects_missing_name : forall f kv t ns wh st d,
@@ -151,10 +176,11 @@ Theorem C11_rejects_enum_any_depth : forall j kv,
 Proof. intros j kv Tr T A. apply (accepted_traversed _ _ Tr) in A. now apply accepted_enum_symbols. Qed.
 Print Assumptions C11_rejects_enum_any_depth.
 
-(** field default of a wrong JSON type: primitive (string form and dict form), union (no
-    branch matches), enum / fixed (not a string), record (not an object) *)
+(** field default of a wrong JSON type: primitive (string form and dict form, the same rule),
+    by-name reference (judged by its definition), union (no branch matches), enum / fixed (not a
+    string), record (not an object) *)
 Theorem C11_rejects_default_prim : forall f s ns wh st dv,
-  is_prim s = true -> default_matches dv (JStr s) = POk false ->
+  is_prim s = true -> default_matches_prim dv (JStr s) = POk false ->
   parse_rec (S f) (JStr s) ns wh st (Some dv) = PErrParse.
 Proof. exact exact_default_prim. Qed.
 Print Assumptions C11_rejects_default_prim.
@@ -162,16 +188,46 @@ Print Assumptions C11_rejects_default_prim.
 Theorem C11_rejects_default_primdict : forall f kv t ns wh st dv,
   jget "type" kv = Some (JStr t) -> is_prim t = true ->
   decimal_checks (base_of kv (JStr t)) kv (JStr t) = POk tt ->
-  default_matches_strict dv t = false ->
+  default_matches_prim dv (JStr t) = POk false ->
   parse_rec (S f) (JObj kv) ns wh st (Some dv) = PErrParse.
 Proof. exact exact_default_primdict. Qed.
 Print Assumptions C11_rejects_default_primdict.
 
+Theorem C11_rejects_default_ref : forall f s ns wh st dv,
+  is_prim s = false -> jhas (qualify ns s) (st_tbl st) = true ->
+  default_matches (st_tbl st) dv (JStr (qualify ns s)) = POk false ->
+  parse_rec (S f) (JStr s) ns wh st (Some dv) = PErrParse.
+Proof. exact exact_default_ref. Qed.
+Print Assumptions C11_rejects_default_ref.
+
 Theorem C11_rejects_default_union : forall f l ns wh st dv ps st1,
-  parse_members (parse_rec f) ns l st = POk (ps, st1) -> any_match dv ps = POk false ->
+  parse_members (parse_rec f) ns l st = POk (ps, st1) -> any_match (st_tbl st1) dv ps = POk false ->
   parse_rec (S f) (JArr l) ns wh st (Some dv) = PErrParse.
 Proof. exact exact_default_union. Qed.
 Print Assumptions C11_rejects_default_union.
+
+(** what the default rule says: a boolean is no number; a reference is judged by its definition;
+    a complex member by its type *)
+Theorem C11_default_bool_not_number : forall b t,
+  t = "int" \/ t = "long" \/ t = "float" \/ t = "double" -> default_matches_prim (JBool b) (JStr t) = POk false.
+Proof. exact default_bool_not_number. Qed.
+Print Assumptions C11_default_bool_not_number.
+
+Theorem C11_default_ref_by_definition : forall tbl dv q kv,
+  is_prim q = false -> jget q tbl = Some (JObj kv) ->
+  default_matches tbl dv (JStr q) = default_matches_leaf dv (JObj kv).
+Proof. exact default_ref_by_definition. Qed.
+Print Assumptions C11_default_ref_by_definition.
+
+Theorem C11_default_complex_member : forall dv kv t,
+  jget "type" kv = Some (JStr t) ->
+  default_matches_leaf dv (JObj kv) =
+    if String.eqb t "array" then POk (is_jarr dv)
+    else if String.eqb t "map" || String.eqb t "record" || String.eqb t "error" then POk (is_jobj dv)
+    else if String.eqb t "enum" || String.eqb t "fixed" then POk (is_jstr dv)
+    else default_matches_prim dv (JStr t).
+Proof. exact default_complex_member. Qed.
+Print Assumptions C11_default_complex_member.
 
 Theorem C11_rejects_default_named : forall f kv t ns wh st dv ns' full,
   jget "type" kv = Some (JStr t) -> (t = "enum" \/ t = "fixed") ->
@@ -255,46 +311,33 @@ Proof. exact decimal_checks_ok. Qed.
 Print Assumptions C11_decimal_checks_meaning.
 
 (** ---- acceptance ----
-    Full statement (FALSE of the code, see C11_accepts_refuted_dict_float_int_default):
-      forall j, unmarked j = true -> valid_raw j = true -> exists f r, parse_schema f j [] = POk r.
     [valid_raw] is the independent well-formedness checker of model/SchemaSpec.v: names defined
     before use in document order or enclosing, unique full names (also across the members of a
     top-level union), well-formed names and symbols, unique symbols and field names, defaults of a
     matching JSON type (any branch for unions; integers within the int / long range, numbers
     representable as double), decimal constraints, no union directly inside a union, no two union
-    members of the same unnamed type.
-    Proved: the same for [valid_strict] = valid_raw with ONE more demand: the default of a field
-    whose type is a float/double in DICT form is a float literal (not an integer literal).  All
-    other schemas - records, recursion, unions, top-level unions, namespaces, every default kind -
-    are covered, with no bound on size or depth. *)
-Theorem C11_accepts_partial : forall j,
-  unmarked j = true -> valid_strict j = true -> exists f r, parse_schema f j [] = POk r.
-Proof. exact valid_strict_accepted. Qed.
-Print Assumptions C11_accepts_partial.
-
-(** valid_strict is a restriction of valid_raw, so C11_accepts_partial is an instance of the full statement *)
-Theorem C11_valid_strict_is_valid : forall j, valid_strict j = true -> valid_raw j = true.
-Proof. exact valid_strict_raw. Qed.
-Print Assumptions C11_valid_strict_is_valid.
+    members of the same unnamed type.  Every such schema is accepted - records, recursion,
+    unions, top-level unions, namespaces, every default kind - with no bound on size or depth.
+    (Before the repair of the default checks the statement was false for {"type": "double"} with
+    the integer default 1.) *)
+Theorem C11_accepts : forall j,
+  unmarked j = true -> valid_raw j = true -> exists f r, parse_schema f j [] = POk r.
+Proof. exact valid_accepted. Qed.
+Print Assumptions C11_accepts.
 
 (** the inner form: any namespace, any state related to the checker's definitions, any default *)
 Theorem C11_accepts_inner : forall f j ns ds d ds' st wh,
-  valid_f true f j ns ds d = Some ds' -> rel ds st ->
+  valid_f f j ns ds d = Some ds' -> rel ds st ->
   exists p st', parse_rec f j ns wh st d = POk (p, st') /\ rel ds' st'.
 Proof.
   intros f j ns ds d ds' st wh V R. destruct (accept_rec f _ _ _ _ _ _ wh V R) as (p & st' & P & R' & _). eauto.
 Qed.
 Print Assumptions C11_accepts_inner.
 
-(** the specification-valid schema the code rejects: {"type": "double"} with the default 1 *)
-Theorem C11_accepts_refuted_dict_float_int_default :
-  exists j, unmarked j = true /\ valid_raw j = true /\ valid_strict j = false /\ parse_auto j = PErrParse.
-Proof.
-  exists (JObj [("type", JStr "record"); ("name", JStr "R");
-                ("fields", JArr [JObj [("name", JStr "f"); ("type", JObj [("type", JStr "double")]); ("default", JInt 1)]])]).
-  repeat split; vm_compute; reflexivity.
-Qed.
-Print Assumptions C11_accepts_refuted_dict_float_int_default.
+Example C11_dict_float_int_default_accepted :
+  exists r, parse_auto (JObj [("type", JStr "record"); ("name", JStr "R");
+                ("fields", JArr [JObj [("name", JStr "f"); ("type", JObj [("type", JStr "double")]); ("default", JInt 1)]])]) = POk r.
+Proof. eexists. vm_compute. reflexivity. Qed.
 
 (** the exact integer formula used for the decimal bound: floor(log10(2) * n) is at least
     every p with 10^p <= 2^n (so a precision that fits the fixed size is accepted) *)
@@ -314,7 +357,7 @@ Definition ex11 : json :=
                                               ("logicalType", JStr "decimal"); ("precision", JInt 38); ("scale", JInt 2)])];
                          JObj [("name", JStr "next"); ("type", JArr [JStr "null"; JStr "Node"; JStr "org.x.K"]); ("default", JNull)]])].
 Example C11_example :
-  valid_raw ex11 = true /\ valid_strict ex11 = true /\ unmarked ex11 = true /\ spec_names "" ex11 = ["org.x.Node"; "org.x.K"; "other.Id"] /\
+  valid_raw ex11 = true /\ unmarked ex11 = true /\ spec_names "" ex11 = ["org.x.Node"; "org.x.K"; "other.Id"] /\
   exists p t, parse_auto ex11 = POk (p, t) /\ carried_names p = ["org.x.Node"; "org.x.K"; "other.Id"] /\
               refs p = ["org.x.Node"; "org.x.K"] /\ keys t = ["org.x.Node"; "org.x.K"; "other.Id"].
-Proof. do 4 (split; [vm_compute; reflexivity|]). do 2 eexists. vm_compute. repeat split. Qed.
+Proof. do 3 (split; [vm_compute; reflexivity|]). do 2 eexists. vm_compute. repeat split. Qed.
